@@ -4,8 +4,9 @@
     regenerated from the Go source on every run (Gen/GenExchangePerms.v, Gen/GenGovEndpoints.v). *)
 From Coq Require Import List String Bool NArith.
 Import ListNotations.
-From PV Require Import Exchange.Perms Exchange.GovGuards Gen.GenExchangePerms Gen.GenGovEndpoints
-  Proofs.PermsProofs.
+From PV Require Import Exchange.Perms Exchange.GovGuards Exchange.GuardPaths Exchange.PermWorld
+  Gen.GenExchangePerms Gen.GenGovEndpoints Gen.GenHandlerPaths
+  Proofs.PermsProofs Proofs.GuardPathsProofs Proofs.PermWorldProofs Proofs.RolesProofs.
 Open Scope string_scope.
 
 (** For every endpoint of the generated table, every store of grants, every market and caller:
@@ -93,14 +94,32 @@ Print Assumptions C11_gov_only.
 
 (** Granting or revoking changes nothing for any other account, permission or market: over ANY
     sequence of MarketManagePermissions requests (by any admins, accepted or not), a triple that
-    no request names is in the store afterwards iff it was before, and HasPermission agrees. *)
-Theorem C11_grant_frame : forall auth reqs st g,
-  (forall ar, In ar reqs -> names_grant (snd ar) g = false) ->
-  (In g (run_manage auth st reqs) <-> In g st) /\
-  (let '(m, a, p) := g in
-   store_has (run_manage auth st reqs) m a p = store_has st m a p /\
-   has_permission auth (run_manage auth st reqs) m a p = has_permission auth st m a p).
-Proof. exact grant_frame. Qed.
+    no request names is in the store afterwards iff it was before, and HasPermission agrees.
+    And it takes effect AT ONCE: an accepted request was signed by the authority or a holder of
+    PERMISSION_PERMISSIONS on that market; every triple it revokes (RevokeAll or ToRevoke) and does not
+    grant again is gone from the store, every triple it grants is there, and an account other than the
+    authority is rejected, from that moment, by every endpoint documented to need a revoked permission
+    on that market. *)
+Theorem C11_grant_frame :
+  (forall auth reqs st g,
+     (forall ar, In ar reqs -> names_grant (snd ar) g = false) ->
+     (In g (run_manage auth st reqs) <-> In g st) /\
+     (let '(m, a, p) := g in
+      store_has (run_manage auth st reqs) m a p = store_has st m a p /\
+      has_permission auth (run_manage auth st reqs) m a p = has_permission auth st m a p))
+  /\
+  (forall auth st admin r st',
+     manage_permissions auth st admin r = (st', true) ->
+     (admin = auth \/ In (u_market r, admin, PPermissions) st) /\
+     (forall a p, revokes r a p = true -> grants r a p = false -> ~ In (u_market r, a, p) st') /\
+     (forall a p, grants r a p = true -> In (u_market r, a, p) st'))
+  /\
+  (forall auth st admin r st',
+     manage_permissions auth st admin r = (st', true) ->
+     forall a p, revokes r a p = true -> grants r a p = false -> a <> auth ->
+     forall row, In row gen_endpoints -> documented_requirement (ep_name row) = RPerm p ->
+       endpoint_allowed (ep_name row) auth st' (u_market r) a = false).
+Proof. exact (conj grant_frame (conj manage_success_effects revocation_immediate)). Qed.
 Print Assumptions C11_grant_frame.
 
 (** A rejected request (guard or UpdatePermissions error) changes nothing at all. *)
@@ -110,8 +129,9 @@ Proof. exact manage_permissions_rejected_unchanged. Qed.
 Print Assumptions C11_rejected_grant_changes_nothing.
 
 (** Users cancel only their own orders: a successful CancelOrder was signed by the order's owner,
-    the authority, or a holder of PERMISSION_CANCEL on the order's market, and removes only that
-    order; and an order survives every sequence of cancellations by other signers. *)
+    the authority, or a holder of PERMISSION_CANCEL on the ORDER'S market (whatever other market the
+    signer holds it on), and removes only that order; an order survives every sequence of
+    cancellations by other signers; and (order ids being unique) exactly those signers succeed. *)
 Theorem C11_own_orders_only :
   (forall auth st orders oid signer orders',
      cancel_order auth st orders oid signer = (orders', true) ->
@@ -122,18 +142,48 @@ Theorem C11_own_orders_only :
   (forall auth st ops orders o,
      In o orders ->
      (forall op, In op ops -> snd op <> o_owner o /\ snd op <> auth /\ ~ In (o_market o, snd op, PCancel) st) ->
-     In o (run_cancels auth st orders ops)).
-Proof. exact (conj cancel_order_success own_orders_only). Qed.
+     In o (run_cancels auth st orders ops))
+  /\
+  (forall auth st orders oid signer, NoDup (map o_id orders) ->
+     (snd (cancel_order auth st orders oid signer) = true <->
+      exists o, In o orders /\ o_id o = oid /\
+        (signer = o_owner o \/ signer = auth \/ In (o_market o, signer, PCancel) st))).
+Proof. exact (conj cancel_order_success (conj own_orders_only cancel_order_iff)). Qed.
 Print Assumptions C11_own_orders_only.
 
-(** Payments: accept / reject succeed only for the payment's target; an operation leaves every
-    payment in which its signer has no role (target for accept/reject, source for cancel/retarget)
-    in place and unchanged; hence a payment survives every sequence of operations signed by
-    accounts that are neither its source nor its target. *)
+(** Payments, as an IFF per operation (payments being keyed by (source, external id), an invariant of
+    every history): accept and reject succeed exactly for the TARGET of the payment named; RejectPayments
+    exactly when the signer is the target of some payment of every listed source; CancelPayments exactly
+    when every listed external id is a payment whose SOURCE is the signer; ChangePaymentTarget exactly
+    for the source of the payment (and a different new target); CreatePayment exactly when the signer
+    has no payment under that id.  An operation leaves every payment in which its signer has no role
+    in place and unchanged; a payment survives every sequence of operations signed by accounts that
+    are neither its source nor its target. *)
 Theorem C11_payment_roles :
-  (forall st s src ext st',
-     (pay_step st (PyAccept s src ext) = (st', true) \/ pay_step st (PyReject s src ext) = (st', true)) ->
-     exists e, In e st /\ p_source e = src /\ p_ext e = ext /\ p_target e = Some s)
+  (forall st s src ext, NoDup (map pkey st) ->
+     (snd (pay_step st (PyAccept s src ext)) = true <->
+      exists e, In e st /\ p_source e = src /\ p_ext e = ext /\ p_target e = Some s) /\
+     (snd (pay_step st (PyReject s src ext)) = true <->
+      exists e, In e st /\ p_source e = src /\ p_ext e = ext /\ p_target e = Some s))
+  /\
+  (forall st s srcs,
+     snd (pay_step st (PyRejectAll s srcs)) = true <->
+     srcs <> [] /\ nodup_N srcs = true /\
+     forall src, In src srcs -> exists p, In p st /\ p_source p = src /\ p_target p = Some s)
+  /\
+  (forall st s exts,
+     snd (pay_step st (PyCancel s exts)) = true <->
+     exts <> [] /\ nodup_N exts = true /\
+     forall ext, In ext exts -> exists p, In p st /\ p_ext p = ext /\ p_source p = s)
+  /\
+  (forall st s ext nt, NoDup (map pkey st) ->
+     (snd (pay_step st (PyRetarget s ext nt)) = true <->
+      exists e, In e st /\ p_source e = s /\ p_ext e = ext /\ p_target e <> nt))
+  /\
+  (forall st s ext tgt,
+     snd (pay_step st (PyCreate s ext tgt)) = true <-> ~ exists p, In p st /\ p_source p = s /\ p_ext p = ext)
+  /\
+  (forall ops st, NoDup (map pkey st) -> NoDup (map pkey (run_payments st ops)))
   /\
   (forall st op p, In p st -> ~ role_of op p -> In p (fst (pay_step st op)))
   /\
@@ -141,7 +191,11 @@ Theorem C11_payment_roles :
      In p st ->
      (forall op, In op ops -> op_signer op <> p_source p /\ Some (op_signer op) <> p_target p) ->
      In p (run_payments st ops)).
-Proof. exact (conj pay_step_accept_reject_by_target (conj pay_step_keeps payment_roles_history)). Qed.
+Proof.
+  exact (conj (fun st s src ext Hu => conj (accept_iff st s src ext Hu) (reject_iff st s src ext Hu))
+        (conj reject_all_iff (conj cancel_iff (conj retarget_iff (conj create_iff
+        (conj run_payments_keys_unique (conj pay_step_keeps payment_roles_history))))))).
+Qed.
 Print Assumptions C11_payment_roles.
 
 (** What the payment model reads off the generated tables: the comparisons and store lookups of
@@ -151,6 +205,190 @@ Theorem C11_payment_tables : accept_checks_target = true /\ reject_checks_target
   accept_signer_is_target = true /\ create_signer_is_source = true.
 Proof. exact payment_tables. Qed.
 Print Assumptions C11_payment_tables.
+
+(** Exactness of the guards: for every endpoint of the generated table, getting past the guard is
+    EQUIVALENT to the documented condition; an item (order / commitment) of market X is changed by a
+    market endpoint exactly when the request names market X and the caller satisfies the documented
+    condition on X (MarketSetOrderExternalID: exactly the authority and the holders of
+    PERMISSION_SET_IDS on the ORDER'S market - not the order's owner, not a holder on another market). *)
+Theorem C11_endpoint_allowed_iff :
+  forall row, In row gen_endpoints ->
+  forall auth st market caller,
+    endpoint_allowed (ep_name row) auth st market caller = true <->
+    match documented_requirement (ep_name row) with
+    | RPerm p => caller = auth \/ In (market, caller, p) st
+    | RAuthority => caller = auth
+    | RRejectAll => False
+    | RDelegated _ => True
+    | RUnknown => False
+    end.
+Proof. exact endpoint_allowed_iff. Qed.
+Print Assumptions C11_endpoint_allowed_iff.
+
+Theorem C11_cross_market_items_iff :
+  forall row, In row gen_endpoints ->
+  forall auth st req_market item_market caller,
+    item_changed (ep_name row) auth st req_market item_market caller = true <->
+    req_market = item_market /\
+    match documented_requirement (ep_name row) with
+    | RPerm p => caller = auth \/ In (item_market, caller, p) st
+    | RAuthority => caller = auth
+    | RRejectAll => False
+    | RDelegated _ => True
+    | RUnknown => False
+    end.
+Proof. exact item_changed_iff. Qed.
+Print Assumptions C11_cross_market_items_iff.
+
+(** Permissions are per market: holding the documented permission on any OTHER market does not help. *)
+Theorem C11_permissions_are_per_market :
+  forall row, In row gen_endpoints ->
+  forall p, documented_requirement (ep_name row) = RPerm p ->
+  forall auth st market caller,
+    caller <> auth -> ~ In (market, caller, p) st ->
+    endpoint_allowed (ep_name row) auth st market caller = false.
+Proof. exact per_market. Qed.
+Print Assumptions C11_permissions_are_per_market.
+
+(** THE GUARD DOMINATES EVERY EFFECT.  For every MsgServer method of x/exchange/keeper/msg_server.go,
+    on EVERY path through its body (Gen/GenHandlerPaths.v: if/else, switch, loops, returns, panics;
+    no goto / label / select / go anywhere): every call that can write state and every successful
+    return is preceded, on that path, by the PASS branch of the endpoint's documented guard - the Can*
+    helper testing exactly the documented permission on the request's own MarketId and Admin, or
+    ValidateAuthority on the request's Authority; deprecated endpoints have no effect on any path.
+    (No early store write before the check, no path around it, the failing branch reaches no write.) *)
+Theorem C11_guard_dominates_effects :
+  forall r, In r gen_exchange_paths -> hp_kind r = "exchange" ->
+  forall p, In p (hp_paths r) ->
+    (forall w, ~ In (EvUnstructured w) p) /\
+    forall i e, nth_error p i = Some e -> is_effect e = true ->
+      match documented_requirement (hp_endpoint r) with
+      | RPerm perm =>
+          exists j h, j < i /\ nth_error p j = Some (EvGuard true (GCan h "msg.MarketId" "msg.Admin"))
+                      /\ helper_perm h = Some perm
+      | RAuthority =>
+          exists j via, j < i /\ nth_error p j = Some (EvGuard true (GAuth "msg.Authority" via))
+                        /\ via_ok "exchange" via = true
+      | RRejectAll => False
+      | RDelegated _ => True
+      | RUnknown => False
+      end.
+Proof. exact guard_dominates_effects. Qed.
+Print Assumptions C11_guard_dominates_effects.
+
+(** The same for the keeper functions the un-guarded handlers delegate to: on every path of
+    Keeper.CancelOrder every write comes after "signer = owner or CanCancelOrdersForMarket(order's
+    market, signer)" held; of SetOrderExternalID after "the request's market = the order's market" held;
+    of AcceptPayment / RejectPayment after "the given target = the stored payment's target" held. *)
+Theorem C11_keeper_checks_dominate :
+  forall r, In r gen_exchange_paths -> hp_kind r = "keeper" ->
+  forall p, In p (hp_paths r) ->
+    (forall w, ~ In (EvUnstructured w) p) /\
+    forall i e, nth_error p i = Some e -> is_effect e = true ->
+      exists j g, j < i /\ nth_error p j = Some (EvGuard true g) /\ keeper_acceptable (hp_endpoint r) g = true.
+Proof. exact keeper_checks_dominate. Qed.
+Print Assumptions C11_keeper_checks_dominate.
+
+(** And for every Msg handler of every module whose request has an Authority field (open endpoint:
+    oracle SendQueryOracle): every effect comes after the comparison of msg.Authority with the
+    keeper's authority held - or, for the three documented exceptions, their documented alternative. *)
+Theorem C11_gov_guard_dominates :
+  forall r, In r gen_msg_paths -> hp_has_field r = true ->
+  forall p, In p (hp_paths r) ->
+    (forall w, ~ In (EvUnstructured w) p) /\
+    (is_open_endpoint (hp_module r) (hp_endpoint r) = false ->
+     forall i e, nth_error p i = Some e -> is_effect e = true ->
+       exists j g, j < i /\ nth_error p j = Some (EvGuard true g)
+                   /\ msg_acceptable (hp_module r) (hp_endpoint r) g = true).
+Proof. exact msg_guard_dominates. Qed.
+Print Assumptions C11_gov_guard_dominates.
+
+(** The checker used for the three theorems above decides exactly dominance. *)
+Theorem C11_path_checker_is_dominance : forall acc p,
+  path_guarded acc p = true <->
+  (forall i e, nth_error p i = Some e -> is_effect e = true ->
+     exists j g, j < i /\ nth_error p j = Some (EvGuard true g) /\ acc g = true).
+Proof. exact (fun acc p => conj (path_guarded_spec acc p) (path_guarded_complete acc p)). Qed.
+Print Assumptions C11_path_checker_is_dominance.
+
+(** No governance-only endpoint hides behind another field name: a handler of any module all of whose
+    effects come after a bare comparison of SOME expression with the keeper's authority has an
+    [Authority] field (so the harness' sweep over the message types with that field sees it); the
+    handlers that compare another field with the authority are exactly the five reviewed ones, where
+    the authority is an alternative to a right over the object; the path table and the guard tables
+    list the same endpoints; every keeper's authority is initialised with the governance module
+    account; MarketSetOrderExternalID hands (msg.MarketId, msg.OrderId) to SetOrderExternalID; and
+    the only methods under x/ that consult their keeper's authority at all are the accessor functions,
+    the Msg handlers of the path table, HasPermission and the two dry-run queries. *)
+Theorem C11_authority_uses :
+  (forall r, In r gen_msg_paths -> gov_only_by_paths r = true -> hp_has_field r = true) /\
+  uses_match documented_authority_uses fieldless_rows = true /\
+  authority_sources_ok = true /\
+  same_endpoints = true /\ keeper_names_ok = true /\ same_gov_rows = true /\ gov_rows_agree = true /\
+  set_ids_delegation_ok = true /\ authority_mentions_ok = true.
+Proof.
+  exact (conj gov_only_has_field (conj (proj1 authority_uses_check) (conj (proj2 authority_uses_check)
+        (conj (proj2 exchange_rows_check) (conj (proj2 keeper_rows_check)
+        (conj (proj1 (proj2 msg_rows_check)) (conj (proj2 (proj2 msg_rows_check)) (conj set_ids_delegation_check authority_mentions_check)))))))).
+Qed.
+Print Assumptions C11_authority_uses.
+
+(** Query handlers of every module: structured control flow only, and every call that can write
+    state is made on a context obtained from CacheContext() in the same function (or is one of the
+    eleven reviewed calls whose name the read-only patterns do not cover); in the exchange module the
+    handlers that call writing keeper code are exactly the two dry runs. *)
+Theorem C11_query_handlers_branch_before_writing :
+  (forall r, In r gen_query_handlers ->
+     qh_unstructured r = [] /\
+     forall w, In w (qh_writes r) ->
+       qw_branched w = true \/ In (qh_module r, qw_call w) reviewed_query_calls) /\
+  exchange_writing_queries = ["ValidateCreateMarket"; "ValidateManageFees"].
+Proof. exact (conj query_handlers_branch (proj2 exchange_queries_branch)). Qed.
+Print Assumptions C11_query_handlers_branch_before_writing.
+
+(** QUERIES ARE READ-ONLY (frame statement over the model's query steps, whose effect is defined by
+    the generated table): a query step of any exchange Query handler returns the world it was given,
+    whatever authority string and market definition it carries; hence in any history the queries can
+    be deleted without changing the outcome - in particular nobody gains a permission through one. *)
+Theorem C11_queries_are_read_only :
+  (forall r, In r gen_query_handlers -> qh_module r = "exchange" ->
+     forall auth w a c, fst (wstep auth w (WQuery (qh_endpoint r) a c)) = w) /\
+  (forall auth ops w,
+     (forall name a c, In (WQuery name a c) ops ->
+        exists r, In r gen_query_handlers /\ qh_module r = "exchange" /\ qh_endpoint r = name) ->
+     wrun auth w ops = wrun auth w (filter (fun op => negb (is_query op)) ops)).
+Proof. exact (conj query_step_read_only queries_do_not_matter). Qed.
+Print Assumptions C11_queries_are_read_only.
+
+(** A NEW MARKET HAS EXACTLY THE GRANTS IT WAS CREATED WITH.  In ANY world (so after any history -
+    including one in which the authority granted permissions for that market id before the market
+    existed): an accepted GovCreateMarket was signed by the authority for an id that did not exist;
+    afterwards the permission entries of the new market are exactly those listed in the request, the
+    entries of every other market are untouched; and an account the request does not list for
+    permission p is rejected by every endpoint documented to need p on the new market. *)
+Theorem C11_new_market_has_exactly_its_grants :
+  (forall auth w caller c w',
+     wstep auth w (WCreate caller c) = (w', true) ->
+     caller = auth /\ market_exists w (c_market c) = false /\
+     w_markets w' = c_market c :: w_markets w /\
+     (forall a p, In (c_market c, a, p) (w_grants w') <-> exists ps, In (a, ps) (c_grants c) /\ In p ps) /\
+     (forall m a p, m <> c_market c -> (In (m, a, p) (w_grants w') <-> In (m, a, p) (w_grants w))))
+  /\
+  (forall auth ops w0 caller c w',
+     wstep auth (wrun auth w0 ops) (WCreate caller c) = (w', true) ->
+     forall row, In row gen_endpoints -> forall p, documented_requirement (ep_name row) = RPerm p ->
+     forall a, a <> auth -> lists_grant c a p = false ->
+       endpoint_allowed (ep_name row) auth (w_grants w') (c_market c) a = false).
+Proof.
+  exact (conj create_step_success
+        (fun auth ops w0 caller c w' H => new_market_rejects_unlisted auth (wrun auth w0 ops) caller c w' H)).
+Qed.
+Print Assumptions C11_new_market_has_exactly_its_grants.
+
+(** A rejected step of a history (any kind) changes nothing. *)
+Theorem C11_rejected_step_changes_nothing : forall auth w op w', wstep auth w op = (w', false) -> w' = w.
+Proof. exact wstep_rejected_unchanged. Qed.
+Print Assumptions C11_rejected_step_changes_nothing.
 
 (** Non-vacuity: a concrete store where the guard separates callers, a request sequence that
     really grants and revokes while an unnamed triple stays, a cancellation by a permitted
@@ -175,4 +413,31 @@ Example C11_witness :
   pay_step [{| p_source := 1; p_ext := 7; p_target := Some 2 |}]%N (PyAccept 3 1 7)%N
     = ([{| p_source := 1; p_ext := 7; p_target := Some 2 |}]%N, false) /\
   pay_step [{| p_source := 1; p_ext := 7; p_target := Some 2 |}]%N (PyAccept 2 1 7)%N = ([], true).
+Proof. vm_compute. repeat split. Qed.
+
+(** Non-vacuity of the history theorems: the authority grants account 5 two permissions on market 9
+    BEFORE that market exists (5 can then withdraw from it); GovCreateMarket for id 9 naming only account
+    6 wipes them (5 is rejected, 6 passes); a stranger's second creation and a non-authority's creation
+    are rejected; a dry-run query carrying the authority STRING reports success and changes nothing;
+    revoking takes effect at once; and the generated path table really contains a guarded write. *)
+Example C11_witness_world :
+  let w0 := {| w_grants := [(1, 5, PSettle)]%N; w_markets := [1; 2]%N |} in
+  let early := WManage 0%N {| u_market := 9%N; u_revoke_all := []; u_to_revoke := [];
+                              u_to_grant := [(5, [PWithdraw; PPermissions])]%N |} in
+  let create := WCreate 0%N {| c_market := 9%N; c_grants := [(6%N, all_perms)] |} in
+  let dry := WQuery "ValidateCreateMarket" 0%N {| c_market := 77%N; c_grants := [(8%N, all_perms)] |} in
+  endpoint_allowed "MarketWithdraw" 0%N (w_grants (wrun 0%N w0 [early])) 9%N 5%N = true /\
+  endpoint_allowed "MarketWithdraw" 0%N (w_grants (wrun 0%N w0 [early; create])) 9%N 5%N = false /\
+  endpoint_allowed "MarketWithdraw" 0%N (w_grants (wrun 0%N w0 [early; create])) 9%N 6%N = true /\
+  store_has (w_grants (wrun 0%N w0 [early; create])) 1%N 5%N PSettle = true /\
+  snd (wstep 0%N (wrun 0%N w0 [early; create]) create) = false /\
+  snd (wstep 0%N w0 (WCreate 6%N {| c_market := 9%N; c_grants := [(6%N, all_perms)] |})) = false /\
+  wstep 0%N w0 dry = (w0, true) /\
+  wrun 0%N w0 [dry; early; dry; create] = wrun 0%N w0 [early; create] /\
+  (let revoke := WManage 6%N {| u_market := 9%N; u_revoke_all := [6%N]; u_to_revoke := []; u_to_grant := [] |} in
+   snd (wstep 0%N (wrun 0%N w0 [early; create]) revoke) = true /\
+   endpoint_allowed "MarketSettle" 0%N (w_grants (wrun 0%N w0 [early; create; revoke])) 9%N 6%N = false) /\
+  existsb (fun r => (hp_endpoint r =? "MarketWithdraw") &&
+                    existsb (fun p => existsb is_effect p && path_guarded (acceptable (RPerm PWithdraw)) p) (hp_paths r))
+          gen_exchange_paths = true.
 Proof. vm_compute. repeat split. Qed.
